@@ -13,8 +13,20 @@ package csr
 //@ func (*ReqParam).Validate(p)
 //@   ensures result == nil <==> p != nil
 
+//@ # the flattened token list of an argument vector: every argument split at single spaces, in order.
+//@ # ftotal(a, off, k): number of tokens of the first k arguments; ftok(a, off, k, j): the j-th of them (definitions by recursion on k)
+//@ ghost func ftotal(a strs, off int, k int) int
+//@ ghost func ftok(a strs, off int, k int, j int) string
+//@ axiom ftotal_def(a strs, off int, k int): ftotal(a, off, k) == (k <= 0 ? 0 : ftotal(a, off, k - 1) + splitCount(at(a, off, k - 1), " "))
+//@ axiom ftok_def(a strs, off int, k int, j int): (k > 0 && 0 <= j && j < ftotal(a, off, k)) ==>
+//@   ftok(a, off, k, j) == (j < ftotal(a, off, k - 1) ? ftok(a, off, k - 1, j) : splitPart(at(a, off, k - 1), " ", j - ftotal(a, off, k - 1)))
 //@ func parseForceCommand(osArgs)
 //@   flag logged
+//@   ensures [any-argument-vector: 3..6 tokens in all, policy last but one, handler last] err == nil ==> (
+//@     3 <= ftotal(elems(osArgs), off(osArgs), len(osArgs)) && ftotal(elems(osArgs), off(osArgs), len(osArgs)) <= 6 &&
+//@     result0 == ftok(elems(osArgs), off(osArgs), len(osArgs), ftotal(elems(osArgs), off(osArgs), len(osArgs)) - 2) &&
+//@     result1 == ftok(elems(osArgs), off(osArgs), len(osArgs), ftotal(elems(osArgs), off(osArgs), len(osArgs)) - 1))
+//@   ensures [any-argument-vector: wrong token count is an error] (ftotal(elems(osArgs), off(osArgs), len(osArgs)) < 3 || ftotal(elems(osArgs), off(osArgs), len(osArgs)) > 6) ==> err != nil
 //@   ensures [policy-is-defined] err == nil ==> (result0 == "NONS" || result0 == "NSOK")
 //@   ensures err != nil ==> (result0 == "" && result1 == "")
 //@   ensures [single-command-string: 3..6 tokens, policy last but one, handler last] (len(osArgs) == 1 && err == nil) ==> (
@@ -26,6 +38,8 @@ package csr
 //@     invariant rangeindex == -1 ==> len(args) == 0
 //@     invariant (len(osArgs) == 1 && rangeindex == 0) ==> (len(args) == splitCount(osArgs[0], " ") &&
 //@       forall(j, 0 <= j && j < len(args), args[j] == splitPart(osArgs[0], " ", j)))
+//@     invariant len(args) == ftotal(elems(osArgs), off(osArgs), rangeindex + 1)
+//@     invariant forall(j, 0 <= j && j < len(args), args[j] == ftok(elems(osArgs), off(osArgs), rangeindex + 1, j))
 
 //@ func NewReqParam(envGetter, osArgsGetter)
 //@   flag purecallbacks
